@@ -439,6 +439,12 @@ class Tr:
             if any(c.lit is not None or c.ty is None for c in cs):
                 return V(None, None, comps=cs)
             return V("(%s)" % ", ".join(c.t for c in cs), T(*[c.ty for c in cs]), 100, comps=cs)
+        if isinstance(node, ast.List) and node.elts:
+            cs = [self.expr(e) for e in node.elts]
+            ty = next((c.ty for c in cs if c.lit is None and c.ty is not None), None)
+            if ty is None:
+                raise Shape("type of the list %s" % ast.unparse(node))
+            return V("[%s]" % ", ".join(self.cast(c, ty).t for c in cs), L(ty), 100)
         if isinstance(node, ast.BinOp):
             return self.arith(node, node.op, self.expr(node.left), self.expr(node.right))
         if isinstance(node, ast.UnaryOp) and isinstance(node.op, ast.Not):
@@ -1219,7 +1225,7 @@ class Unit:
         self.fns = {n.name: n for n in tree.body if isinstance(n, ast.FunctionDef)}
         self.targets = {c["func"]: c for c in TARGETS if c.get("region", "function") == "function"}
         self.pinned = {c["func"]: c for c in TARGETS if c.get("region") == "pin" and c.get("model")}
-        self.aux, self.conversions, self.seen, self.while_count, self.nested_caps = [], [], set(), {}, {}
+        self.aux, self.conversions, self.seen, self.while_count, self.nested_caps, self.draws_used = [], [], set(), {}, {}, []
         self.scope = []
 
     def order(self, names):
@@ -1265,7 +1271,7 @@ class Unit:
             raise Shape("signature of %s is outside the subset" % fn.name)
         if [x.arg for x in a.args] != [p for p, _ in cfg["params"]]:
             raise Shape("parameters of %s are %s, expected %s" % (fn.name, [x.arg for x in a.args], [p for p, _ in cfg["params"]]))
-        self.aux, self.conversions, self.seen, self.nested_caps = [], [], set(), {}
+        self.aux, self.conversions, self.seen, self.nested_caps, self.draws_used = [], [], set(), {}, []
         self.scope = [x.arg for x in a.args] + assigned_names(body)
         t = Tr(self, cfg)
         binders = []
@@ -1371,8 +1377,30 @@ def _col_sum(tr, b, node):
 
 @idiom("np.argmin(_V)", "npArgmin v", "index of the FIRST minimum of a 1-D array (`ValueError` when empty)")
 def _argmin(tr, b, node):
-    v = _arg(tr, b["_V"], L(Z))
+    v = tr.expr(b["_V"])
+    v = tr.materialise(v) if v.vec is not None else v
+    if v.ty not in (L(Z), L(N)):
+        raise Shape("np.argmin of %s" % ast.unparse(b["_V"]))
     return tr.bind_value("npArgmin %s" % paren(v, 100), N)
+
+
+@idiom("np.max(np.abs(_DX[_X, _XS] - _DY[:, _YS]), axis=1)", "bottlenecksFrom DX DY x xs ys",
+       "for every row r of DY the largest |DX[x][xs[c]] - DY[r][ys[c]]| over the positions c")
+def _bottlenecks(tr, b, node):
+    dx, dy = _arg(tr, b["_DX"], MAT), _arg(tr, b["_DY"], MAT)
+    x, xs, ys = _arg(tr, b["_X"], N), _arg(tr, b["_XS"], L(N)), _arg(tr, b["_YS"], L(N))
+    return tr.bind_value("bottlenecksFrom %s" % " ".join(paren(v, 100) for v in (dx, dy, x, xs, ys)), L(N))
+
+
+@idiom("np.random.choice(len(_D))", "(parameter)", "a draw of the random generator: the parameter `y0` of the generated definition "
+       "(contract: `y0 < len(D)`)")
+def _choice(tr, b, node):
+    p = tr.cfg.get("draw_param")
+    if p is None or tr.unit.draws_used:
+        raise Shape("np.random.choice: the table names no parameter for this draw (or a second draw)")
+    tr.unit.draws_used.append(ast.unparse(node))
+    _arg(tr, b["_D"], MAT)
+    return tr.lookup(p)
 
 
 @idiom("np.delete(_K, _R, axis=0)", "deleteRow K r", "the array without row `r` (`IndexError` out of range)")
@@ -1474,6 +1502,12 @@ TARGETS.append(dict(
     func="find_lb", lean="find_lb", params=[("DX", MAT), ("DY", MAT)], ret=N, skeleton="...", while_bounds=["d"],
     obligations=OBLIGATIONS.get("find_lb", [])))
 
+# ---- construct_mapping  ->  constructMapping (the first image `np.random.choice(len(DY))` is the parameter y0)
+TARGETS.append(dict(
+    func="construct_mapping", lean="construct_mapping", params=[("DX", MAT), ("DY", MAT), ("pi", L(N))], ret=T(L(N), N),
+    extra_params=[("y0", N)], draw_param="y0", local_types={"distortion": N}, skeleton="...",
+    obligations=OBLIGATIONS.get("construct_mapping", [])))
+
 
 BINDINGS = {KEY: [
     ('AttributeError', 'builtin'),
@@ -1482,6 +1516,7 @@ BINDINGS = {KEY: [
     ('check_assignment_feasibility', 'def check_assignment_feasibility'),
     ('confirm_lb_using_bounded_curvature', 'def confirm_lb_using_bounded_curvature'),
     ('confirm_lb_using_bounded_curvature_row', 'def confirm_lb_using_bounded_curvature_row'),
+    ('construct_mapping', 'def construct_mapping'),
     ('determine_optimal_int_type', 'def determine_optimal_int_type'),
     ('find_largest_size_bounded_curvature', 'def find_largest_size_bounded_curvature'),
     ('find_lb', 'def find_lb'),
@@ -1505,6 +1540,7 @@ SIGNATURES = {
     'confirm_lb_using_bounded_curvature_row': 'def confirm_lb_using_bounded_curvature_row(d, K, DY, max_diam)',
     'confirm_lb_using_bounded_curvature': 'def confirm_lb_using_bounded_curvature(d, K, DY, max_diam)',
     'find_lb': 'def find_lb(DX, DY)',
+    'construct_mapping': 'def construct_mapping(DX, DY, pi)',
 }
 
 
